@@ -101,6 +101,10 @@ func scenarios() []scenario {
 			{c("T | where a > 1 | project a, b | where not() | extend c = a + 1 | sort by a | summarize a = max(a), b = max(b) by c | project a, b, c | where a > 1 | project a, b | extend c = a + 1 | sort by a | project a, c | where isnull(a, c) | project a | count", -1)},
 			{c("T | where not(a)", -1)},
 		}},
+		{Name: "S12-string-literals-that-need-escaping", Threads: [][]call{
+			{c(`T | where a == 'x\'y' and b == "p\\q"`, -1), c("T | where a == \"it's\"", -1)},
+			{c(`T | extend d = 'back\\slash', e = "o'clock" | where c == "dq\"x"`, -1)},
+		}},
 		{Name: "S6-two-threads-two-calls", Threads: [][]call{
 			{c("T | where isnotnull(a)", -1), c("T | where isnotnull(a)", -1)},
 			{c("T | extend x = tolower(s)", -1), {"parse", "T | count", -1}},
